@@ -284,7 +284,14 @@ func zzC06_mid_collision() {
 	zzAnswer(cc, s.written[0], 9, 0, 1)
 	symWaitUntil(func() bool { return a.done })
 	symAssert(a.err == nil && len(a.body) == 1 && a.body[0] == 9, "and its acknowledgement still completes it")
+	symIdle()
+	// nothing of the refused request is left behind
+	symAssert(cc.midHandlerContainer.Length() == 0 && cc.tokenHandlerContainer.Length() == 0, "no continuation of the refused or of the completed request is retained")
+	symAssert(cc.numOutstandingInteraction.TryAcquire(1<<63-1), "the refused request holds no outstanding-interaction slot")
 }
+
+// C13 view of the same history
+func zzC13_mid_collision() { zzC06_mid_collision() }
 
 // two confirmable requests are unacknowledged at once (NSTART 2) - one with a payload, one without - and fall due
 // in the same housekeeping tick: each retransmitted copy is identical to the first copy of its own request
